@@ -26,6 +26,7 @@ var c06Heads = []string{
 	"X-Before: 1\r\nContent-Length:\r\n %d \r\n",
 	"Content-Length: %[1]d\r\nContent-Length: %[1]d\r\n", // repeated with the same value
 	"l: %[1]d\r\nX-Mid: 1\r\nContent-Length: %[1]d\r\nl:%[1]d\r\n",
+	"Content-Length: %d\r\nExpires: 31536000\r\n", // another numeric header, above the Content-Length limit, last in the block
 }
 
 func (cs *c06Case) render() (buf []byte, bodyStart int, hasCLen bool) {
@@ -52,6 +53,7 @@ func evalC06(cs *c06Case) (vs []*Violation, outcome string) {
 		c.Extra = map[string]any{"case": cs}
 		vs = append(vs, &Violation{Property: "C06", Site: "ParseSIPMsg", Rule: rule, Class: class, Detail: detail, Case: c})
 	}
+	defer recoverTo3(add)
 	var m sipsp.PSIPMsg
 	m.Init(nil, nil, nil)
 	var n int
@@ -141,7 +143,8 @@ var pipeMenu = []string{
 	"BYE sip:b SIP/2.0\r\nCall-ID: nolen\r\nFrom: <sip:n@l>\r\n\r\n", // no Content-Length: only valid in pipelines under CLen-required
 	"NOTIFY sip:n SIP/2.0\r\nH1: 1\r\nH2: 2\r\nH3: 3\r\nH4: 4\r\nH5: 5\r\nH6: 6\r\nH7: 7\r\nH8: 8\r\nH9: 9\r\nH10: 10\r\nH11: 11\r\nContact: <sip:l@m>\r\nl: 2\r\n\r\nab",
 	"SIP/2.0 183 Session Progress\nv: SIP/2.0/UDP h;branch=z9hG4bKx\nCall-ID: lf@only\nContent-Length:\n 007\nCSeq: 2 INVITE\n\nv=0\r\n\r\n",
-	"MESSAGE sip:m@n SIP/2.0\rCall-ID: cr@only\rFrom: sip:u@v;tag=t\rl: 3\r\r\r\n\r", // lone-CR line ends, body is CR LF CR
+	"SUBSCRIBE sip:s@t SIP/2.0\r\nExpires: 31536000\r\nCSeq: 4294967295 SUBSCRIBE\r\nContact: <sip:s@u>;expires=4294967295;q=1.000\r\nContent-Length: 00000005\r\n\r\n12345", // numbers at their limits
+	"MESSAGE sip:m@n SIP/2.0\rCall-ID: cr@only\rFrom: sip:u@v;tag=t\rl: 3\r\r\r\n\r",                                                                                         // lone-CR line ends, body is CR LF CR
 }
 
 type c06Pipe struct {
@@ -164,6 +167,7 @@ func evalC06Pipe(p *c06Pipe) (vs []*Violation) {
 		c.Extra = map[string]any{"pipe": p}
 		vs = append(vs, &Violation{Property: "C06", Site: "ParseSIPMsg", Rule: rule, Class: class, Detail: detail, Case: c})
 	}
+	defer recoverTo3(add)
 	m := new(sipsp.PSIPMsg)
 	m.Init(nil, nil, nil)
 	offs := 0
@@ -271,7 +275,7 @@ func checkC06(r *Run) {
 			continue
 		}
 		buf, bs, _ := cs.render()
-		lo := bs - 3
+		lo := bs - 24 // covers the last header line of every head shape
 		if r.Tier != "quick" && len(buf) < 200 {
 			lo = cs.Offs + 1
 		}
